@@ -4,7 +4,7 @@ from xrlcheck import verdict
 
 
 def run(ctx):
-    configs = ["A"] if ctx.quick else ["A", "B"]
+    configs = ["A", "B"]      # B: only ElectronConfig differs (the accessor fed by the Kissel table); cheap enough for the quick tier
     cells = 0; nontrivial = 0
     for cfgname in configs:
         b = ctx.build("plain", cfgname)
